@@ -68,7 +68,7 @@ def gen_case(rng: random.Random, tier: str) -> dict:
         if r < 0.03:
             ops.append({"op": "sharedresp", "runner": rng.randrange(3), "x": rng.randint(0, 2), "cfg": gen.gen_async_cfg(rng)})
         elif r < 0.06:
-            ops.append({"op": "siblings", "sync": rng.random() < 0.5, "runner": rng.randrange(2), "x": rng.randint(0, 2), "cfg": gen.gen_async_cfg(rng), "outer_bind": rng.random() < 0.3})
+            ops.append({"op": "siblings", "depth": rng.choice([1, 1, 2, 2, "2map"]), "provide": rng.choice([None, None, "A_obj", "other"]), "sync": rng.random() < 0.5, "runner": rng.randrange(2), "x": rng.randint(0, 2), "cfg": gen.gen_async_cfg(rng), "outer_bind": rng.random() < 0.3})
         elif r < 0.12:
             ops.append({"op": "mapnode", "mo": rng.choice(["x", "xy"]), "renamed": rng.random() < 0.5, "clone": rng.choice([True, False, ["y"]]), "xs": [rng.randint(0, 3) for _ in range(rng.randint(1, 3))], "sync": rng.random() < 0.5, "runner": rng.randrange(2), "cfg": gen.gen_async_cfg(rng)})
         elif r < 0.25:
@@ -160,6 +160,17 @@ class _Pool:
                 graph, comp = build(spec, rt, flav, bind={"cfgs": outer_obj} if ob else None)
                 self.comps.append(comp)
                 self.siblings[(flav, ob)] = (graph, comp.nodes["SA"].graph.inputs.bound["cfgs"], comp.nodes["SB"].graph.inputs.bound["cfgs"], outer_obj)
+                if not ob:
+                    # the same pair one nesting level further down (plain, and mapped over x)
+                    for depth in (2, "2map"):
+                        inner_spec = {k_: v_ for k_, v_ in spec.items() if k_ not in ("add_nodes_after", "bind")}
+                        inner_spec["name"] = "MID"
+                        mid = {"kind": "graph", "name": "MID", "graph": inner_spec}
+                        if depth == "2map":
+                            mid.update({"map_over": ["x"], "map_mode": "zip"})
+                        g2, c2 = build({"name": "sibtop", "nodes": [mid], "order": [0]}, rt, flav)
+                        self.comps.append(c2)
+                        self.siblings[(flav, depth)] = (g2, c2.nodes["SA"].graph.inputs.bound["cfgs"], c2.nodes["SB"].graph.inputs.bound["cfgs"], None)
         # an auto-resolving interrupt with two outputs and a signal, whose handler returns ONE shared dict object on every call
         spec = {"name": "sr", "nodes": [
             {"kind": "interrupt", "name": "srq", "params": [{"name": "x"}], "outs": ["sra", "srb"], "emit": ["srs"], "script": [], "async_handler": True, "shared_resp": True},
@@ -297,8 +308,20 @@ def run_case(doc: dict) -> dict:
             elif op["op"] == "siblings":
                 flav = "sync" if op["sync"] else "async"
                 ob = bool(op.get("outer_bind"))
-                g, obj_a, obj_b, obj_outer = pool.siblings[(flav, ob)]
-                inp = {"x": op["x"]}
+                depth = op.get("depth", 1)
+                if depth in (2, "2map"):
+                    ob = False
+                    g, obj_a, obj_b, obj_outer = pool.siblings[(flav, depth)]
+                else:
+                    g, obj_a, obj_b, obj_outer = pool.siblings[(flav, ob)]
+                inp = {"x": [op["x"], op["x"] + 1] if depth == "2map" else op["x"]}
+                given = None
+                if op.get("provide") == "A_obj":
+                    given = obj_a  # the caller passes, explicitly, the very object one of the graphs has bound
+                elif op.get("provide") == "other":
+                    given = {"who": ["caller"]}
+                if given is not None:
+                    inp["cfgs"] = given
                 h0 = len(rt.history)
                 if flav == "sync":
                     rt.schedule = {}
@@ -311,9 +334,11 @@ def run_case(doc: dict) -> dict:
                 if out["status"] != "completed":
                     viol.append((f"{tag}:sibling_graphs_run_not_completed", {"status": out["status"], "error": out["error"]}))
                 want = {"sa": obj_outer if ob else obj_a, "sb": obj_outer if ob else obj_b}
+                if given is not None:
+                    want = {"sa": given, "sb": given}  # a value supplied by the caller wins over every binding, at every depth
                 for h in rt.history[h0:]:
                     if h["k"] == "enter" and h["n"] in want and h["objs"].get("cfgs") is not want[h["n"]]:
-                        viol.append((f"{tag}:bound_value_of_a_sibling_graph_reached_the_function", {"node": h["n"], "received": h["a"].get("cfgs"), "bound_on_its_graph": want[h["n"]], "outer_binding": ob}))
+                        viol.append((f"{tag}:bound_value_of_a_sibling_graph_reached_the_function", {"node": h["n"], "received": h["a"].get("cfgs"), "expected_object": want[h["n"]], "outer_binding": ob, "depth": depth, "caller_supplied": op.get("provide")}))
                         break
                 res["stats"]["sibling_binding_ops"] = res["stats"].get("sibling_binding_ops", 0) + 1
             elif op["op"] == "mapnode":
